@@ -32,16 +32,16 @@ pub const NAME: &str = "witness";
 
 type W = (Vec<u8>, Vec<u8>);
 
-fn era_tok(f: &Fixture) -> &'static str {
+pub(crate) fn era_tok(f: &Fixture) -> &'static str {
     match f.era { Era::Shelley | Era::Allegra | Era::Mary => "shelley", Era::Alonzo => "alonzo", Era::Babbage => "babbage", _ => "conway" }
 }
 
 /// independent Ed25519 verdict (pallas-crypto's wrapper of cryptoxide, not pallas-validate's `verify_signature`)
-fn sig_ok(vkey: &[u8], sig: &[u8], msg: &[u8]) -> bool {
+pub(crate) fn sig_ok(vkey: &[u8], sig: &[u8], msg: &[u8]) -> bool {
     let (Ok(k), Ok(s)) = (<[u8; 32]>::try_from(vkey), <[u8; 64]>::try_from(sig)) else { return false };
     PublicKey::from(k).verify(msg, &Signature::from(s))
 }
-fn key_hash(vkey: &[u8]) -> String { hex::encode(Hasher::<224>::hash(vkey).as_ref()) }
+pub(crate) fn key_hash(vkey: &[u8]) -> String { hex::encode(Hasher::<224>::hash(vkey).as_ref()) }
 
 /// witness set with map entry 0 replaced (or removed); every other entry keeps its original bytes
 fn replace_vkeys(wits_raw: &[u8], new: &Option<Vec<W>>, conway: bool) -> Vec<u8> {
@@ -104,9 +104,9 @@ fn scenario(name: &str, mode: &str, wits: &Option<Vec<W>>) -> Option<Fixture> {
     Some(f)
 }
 
-fn tx_id(f: &Fixture) -> Vec<u8> { Hasher::<256>::hash(&txparts::split_fixture(f).body).as_ref().to_vec() }
+pub(crate) fn tx_id(f: &Fixture) -> Vec<u8> { Hasher::<256>::hash(&txparts::split_fixture(f).body).as_ref().to_vec() }
 
-fn base_wits(f: &Fixture) -> Option<Vec<W>> {
+pub(crate) fn base_wits(f: &Fixture) -> Option<Vec<W>> {
     let tx = f.tx();
     let has = match &tx {
         MultiEraTx::AlonzoCompatible(x, _) => x.transaction_witness_set.vkeywitness.is_some(),
@@ -118,7 +118,7 @@ fn base_wits(f: &Fixture) -> Option<Vec<W>> {
     Some(tx.vkey_witnesses().iter().map(|w| (w.vkey.to_vec(), w.signature.to_vec())).collect())
 }
 
-fn required_signers(f: &Fixture) -> Option<Vec<String>> {
+pub(crate) fn required_signers(f: &Fixture) -> Option<Vec<String>> {
     let tx = f.tx();
     match &tx {
         MultiEraTx::AlonzoCompatible(x, _) => x.transaction_body.required_signers.as_ref().map(|v| v.iter().map(|h| hex::encode(h.as_ref())).collect()),
@@ -130,7 +130,7 @@ fn required_signers(f: &Fixture) -> Option<Vec<String>> {
 
 /// how the era's validator sees each input (+ collateral from Alonzo on), in the order it visits them;
 /// second component: the payment key hash the *property* demands a witness for (independent of the era's view)
-fn views(f: &Fixture) -> (Vec<String>, Vec<String>) {
+pub(crate) fn views(f: &Fixture) -> (Vec<String>, Vec<String>) {
     let tx = f.tx();
     let utxos = f.utxos();
     let era = era_tok(f);
@@ -170,7 +170,7 @@ fn views(f: &Fixture) -> (Vec<String>, Vec<String>) {
 /// mirrors `check_vkey_input_wits` of babbage.rs (flipped by the `fix:` that made it read Alonzo-era outputs)
 const BABBAGE_LOOKS_AT_ALONZO_OUTPUTS: bool = false;
 
-fn native_ok(f: &Fixture) -> bool {
+pub(crate) fn native_ok(f: &Fixture) -> bool {
     if era_tok(f) != "shelley" { return true; }
     let tx = f.tx();
     let MultiEraTx::AlonzoCompatible(x, _) = &tx else { return true };
@@ -194,13 +194,13 @@ fn synth_tx(era: &str, nin: usize, req: &Option<Vec<u8>>, wits: Option<Vec<W>>) 
     }
 }
 
-fn wits_text(w: &Option<Vec<W>>, msg: &[u8]) -> String {
+pub(crate) fn wits_text(w: &Option<Vec<W>>, msg: &[u8]) -> String {
     match w {
         None => "W none".into(),
         Some(v) => format!("W {}{}", v.len(), v.iter().map(|(k, s)| format!(" {} {} {} {}", hex(k), hex(s), key_hash(k), sig_ok(k, s, msg) as u8)).collect::<String>()),
     }
 }
-fn req_text(r: &Option<Vec<String>>) -> String {
+pub(crate) fn req_text(r: &Option<Vec<String>>) -> String {
     match r { None => "R none".into(), Some(v) => format!("R {}{}", v.len(), v.iter().map(|h| format!(" {h}")).collect::<String>()) }
 }
 
